@@ -144,6 +144,8 @@ PROPS = {
                         'Euclidean normalized distance is checked to be the correctly signed, monotone square root on sample points and in range, not bit-exact against a reference sqrt'],
     },
     'C12': {
+        # the reported distance divides by the DECLARED dimension (not the padded length of the quantised vector): clause of the search contract
+        'verus': {'reader_search': ['Reader::nns_by_leaf']},
         'kani': {'quick': [('bq_codec', BQ_QUICK), ('bq_distance', ['bq_euclidean_is_4h_8_bytes', 'bq_dot_product_is_n_minus_2h_8_bytes']), ('bq_manhattan', ['bq_manhattan_is_2h_8_bytes'])],
                  'thorough': [('bq_codec', BQ_MORE), ('bq_distance', ['bq_euclidean_is_4h_16_bytes'])]},
         'trusted': ['lengths proved: sign packing 1, 63, 64, 65 (quick) + 2, 7, 8, 9, 31, 33, 127, 128, 129 (thorough), contents fully symbolic; other lengths are NOT claimed',
